@@ -516,14 +516,19 @@ class HashRule(ABC):
     def clone(self) -> "HashRule":
         pass
 
+    # A rule is identified by what it refers to, from where (both in the key) and under which name:
+    # two symbols of one function may resolve to things that share a key - two aliases of one
+    # memento function, a function and a modifier clone of it, two lambdas - and each of them has
+    # to be tracked. Ordering by (key, symbol) keeps the order of rules, and so the version,
+    # independent of set iteration order.
     def __lt__(self, other):
-        return self.key < other.key
+        return (self.key, str(self.symbol)) < (other.key, str(other.symbol))
 
     def __eq__(self, other):
-        return self.key == other.key
+        return self.key == other.key and self.symbol == other.symbol
 
     def __hash__(self):
-        return hash(self.key)
+        return hash((self.key, self.symbol))
 
     def __str__(self):
         return self.describe()
